@@ -31,6 +31,10 @@ type Obligation struct {
 	// Requires lists canonical facts that were available at the site; a
 	// reviewed entry may demand some of them.
 	Facts []string `json:"facts,omitempty"`
+	// Alias: the construct rendered with the values that small helpers return written out in
+	// place (`pop(…)#0` as the element the helper reads); used only to find the reviewed entry
+	// of code that was moved into such a helper.
+	Alias string `json:"-"`
 }
 
 func (o *Obligation) Key() string { return o.Rule + "|" + o.Func + "|" + o.Construct }
@@ -161,7 +165,7 @@ func (r *Report) classify(known map[string]string, reviewed map[string]reviewedE
 				for _, k := range rkeys {
 					cand := reviewed[k]
 					kp := strings.SplitN(k, "|", 3)
-					if len(kp) == 3 && !used[k] && kp[0] == parts[0] && stripOrdinal(kp[2]) == stripOrdinal(parts[2]) && pkgOfFunc(kp[1]) == pkgOfFunc(parts[1]) && k != o.Key() {
+					if len(kp) == 3 && !used[k] && kp[0] == parts[0] && (stripOrdinal(kp[2]) == stripOrdinal(parts[2]) || o.Alias != "" && stripOrdinal(kp[2]) == stripOrdinal(o.Alias)) && pkgOfFunc(kp[1]) == pkgOfFunc(parts[1]) && k != o.Key() {
 						e, ok, ekey = cand, true, k
 						break
 					}
@@ -174,7 +178,8 @@ func (r *Report) classify(known map[string]string, reviewed map[string]reviewedE
 			for _, req := range e.Requires {
 				found := false
 				for _, f := range o.Facts {
-					if f == req {
+					// (unexported field names are not part of a fact's shape: they get renamed)
+					if f == req || shapeUnexp.ReplaceAllString(f, ".·") == shapeUnexp.ReplaceAllString(req, ".·") {
 						found = true
 						break
 					}
